@@ -4,7 +4,8 @@
 // (a VA is the text naming how it was built).  The working tree is a real scratch directory (the original text uses Path::exists /
 // fs::read_to_string).
 // Oracle, written from the property (not from the code): what may happen to which working log for which reset; see `check`.
-// RESETLOG_STRICT=1 also reports the two recorded deviations (REPORT.md findings 1 and 2) which the sweep otherwise skips.
+// RESETLOG_STRICT=1 also reports the remaining recorded deviation (REPORT.md finding 2b: a pathspec reset to an OLDER commit drops the named
+// files' pending attribution) and observation 4, which the sweep otherwise skips.  Findings 1 and 2a are repaired in /repo and REQUIRED here.
 #![allow(dead_code, unused)]
 use std::collections::{BTreeMap, BTreeSet, HashMap, HashSet};
 use std::cell::RefCell;
@@ -16,7 +17,7 @@ impl std::fmt::Display for GitAiError { fn fmt(&self, f: &mut std::fmt::Formatte
 // ---------------------------------------------------------------- the world
 #[derive(Clone, Debug, PartialEq)] pub struct WorkingLogEntry { pub file: String, pub tag: u32 }
 #[derive(Clone, Debug, PartialEq, Default)] pub struct Checkpoint { pub entries: Vec<WorkingLogEntry>, pub id: u32 }
-#[derive(Clone, Debug, PartialEq, Default)] pub struct Log { pub cps: Vec<Checkpoint>, pub initial: Option<String> }
+#[derive(Clone, Debug, PartialEq, Default)] pub struct Log { pub cps: Vec<Checkpoint>, pub initial: Option<String>, pub ifiles: Vec<String> }   // initial: what the INITIAL file holds (symbolic), ifiles: the files it names
 #[derive(Clone, Debug, PartialEq)] pub enum Eff { Delete(String), Clear(String), WriteInitial(String, String), Append(String, Checkpoint), Event(String) }
 #[derive(Default)]
 pub struct World {
@@ -36,6 +37,7 @@ fn anc(a: &str, d: &str) -> bool { let mut x = Some(d); while let Some(c) = x { 
 fn range(start: &str, end: &str) -> Vec<String> { let mut v = vec![]; let mut x = Some(end); while let Some(c) = x { if anc(c, start) { break; } v.push(c.to_string()); x = parent(c); } v }
 
 pub fn debug_log(_s: &str) {}
+fn sorted(v: &[String]) -> String { let mut v = v.to_vec(); v.sort(); v.join(",") }
 pub struct Output { pub stdout: Vec<u8> }
 pub mod git {
     pub mod rewrite_log { pub use crate::{ResetKind, ResetEvent, RewriteLogEvent}; }
@@ -87,10 +89,10 @@ pub struct AuthorshipLog { pub attestations: Vec<u8>, pub metadata: Meta }
 pub struct InitialAttributions { pub files: HashMap<String, String>, pub prompts: HashMap<String, String> }
 impl VirtualAttributions {
     pub async fn from_working_log_for_commit(_r: Repository, base: String, pathspecs: &[String], human: Option<String>, stop: Option<String>) -> Result<Self, GitAiError> {
-        fallible()?; Ok(VirtualAttributions(format!("notes+pending(head={};files={};human={:?};stop={:?})", base, pathspecs.join(","), human, stop)))
+        fallible()?; Ok(VirtualAttributions(format!("notes+pending(head={};files={};human={:?};stop={:?})", base, sorted(pathspecs), human, stop)))
     }
     pub async fn new_for_base_commit(_r: Repository, base: String, pathspecs: &[String], stop: Option<String>) -> Result<Self, GitAiError> {
-        fallible()?; Ok(VirtualAttributions(format!("committed(head={};files={};stop={:?})", base, pathspecs.join(","), stop)))
+        fallible()?; Ok(VirtualAttributions(format!("committed(head={};files={};stop={:?})", base, sorted(pathspecs), stop)))
     }
     pub fn files(&self) -> Vec<String> { vec![] }
     pub fn prompts(&self) -> Vec<String> { vec![] }
@@ -110,6 +112,7 @@ pub fn merge_attributions_favoring_first(a: VirtualAttributions, b: VirtualAttri
 pub struct PersistedWorkingLog { sha: String }
 impl RepoStorage {
     pub fn working_log_for_base_commit(&self, sha: &str) -> PersistedWorkingLog { PersistedWorkingLog { sha: sha.to_string() } }
+    pub fn has_working_log(&self, sha: &str) -> bool { w(|x| x.logs.contains_key(sha)) }
     pub fn delete_working_log_for_base_commit(&self, sha: &str) -> Result<(), GitAiError> { fallible()?; w(|x| { x.trace.push(Eff::Delete(sha.to_string())); x.logs.remove(sha); }); Ok(()) }
     pub fn append_rewrite_event(&self, e: RewriteLogEvent) -> Result<Vec<RewriteLogEvent>, GitAiError> {
         let RewriteLogEvent::Reset { reset } = e;
@@ -120,8 +123,9 @@ impl PersistedWorkingLog {
     pub fn reset_working_log(&self) -> Result<(), GitAiError> { fallible()?; w(|x| { x.trace.push(Eff::Clear(self.sha.clone())); x.logs.insert(self.sha.clone(), Log::default()); }); Ok(()) }
     pub fn write_initial_attributions(&self, files: HashMap<String, String>, _p: HashMap<String, String>) -> Result<(), GitAiError> {
         fallible()?; let d = files.get("desc").cloned().unwrap_or_default();
-        w(|x| { x.trace.push(Eff::WriteInitial(self.sha.clone(), d.clone())); x.logs.entry(self.sha.clone()).or_default().initial = Some(d); }); Ok(())
+        w(|x| { x.trace.push(Eff::WriteInitial(self.sha.clone(), d.clone())); let l = x.logs.entry(self.sha.clone()).or_default(); l.initial = Some(d); l.ifiles = vec![]; }); Ok(())
     }
+    pub fn read_initial_attributions(&self) -> InitialAttributions { InitialAttributions { files: w(|x| x.logs.get(&self.sha).map(|l| l.ifiles.iter().map(|f| (f.clone(), String::new())).collect()).unwrap_or_default()), prompts: HashMap::new() } }
     pub fn read_all_checkpoints(&self) -> Result<Vec<Checkpoint>, GitAiError> { Ok(w(|x| x.logs.get(&self.sha).map(|l| l.cps.clone()).unwrap_or_default())) }
     pub fn append_checkpoint(&self, c: &Checkpoint) -> Result<(), GitAiError> { fallible()?; w(|x| { x.trace.push(Eff::Append(self.sha.clone(), c.clone())); x.logs.entry(self.sha.clone()).or_default().cps.push(c.clone()); }); Ok(()) }
 }
@@ -160,7 +164,7 @@ fn unopt(s: &str) -> Option<String> { if s == "-" { None } else { Some(s.to_stri
 fn list(s: &str) -> Vec<String> { if s.is_empty() { vec![] } else { s.split(',').map(|x| x.to_string()).collect() } }
 impl Case {
     fn enc(&self) -> String {
-        let logs: Vec<String> = self.logs.iter().map(|(k, l)| format!("{}:{}:{}", k, opt(&l.initial), l.cps.iter().map(|c| format!("{}={}", c.id, c.entries.iter().map(|e| format!("{}@{}", e.file, e.tag)).collect::<Vec<_>>().join("+"))).collect::<Vec<_>>().join("^"))).collect();
+        let logs: Vec<String> = self.logs.iter().map(|(k, l)| format!("{}:{}:{}", k, match &l.initial { Some(d) => format!("{}!{}", d, l.ifiles.join("+")), None => "-".into() }, l.cps.iter().map(|c| format!("{}={}", c.id, c.entries.iter().map(|e| format!("{}@{}", e.file, e.tag)).collect::<Vec<_>>().join("+"))).collect::<Vec<_>>().join("^"))).collect();
         let touched: Vec<String> = self.touched.iter().map(|(k, v)| format!("{}:{}", k, v.join("+"))).collect();
         format!("ok={};flags={};paths={};old={};new={};pre={};res={};chg={};touch={};logs={};ie={};fail={}", self.ok as u8, self.flags.join(","), match &self.paths { Some(p) => p.join(","), None => "!".into() },
             opt(&self.old), opt(&self.new), opt(&self.pre), opt(&self.res), self.changed.join(","), touched.join("~"), logs.join("~"), self.init_empty as u8, self.fail_at.map_or("-".to_string(), |n| n.to_string()))
@@ -172,7 +176,8 @@ impl Case {
         for l in g("logs").split('~').filter(|x| !x.is_empty()) {
             let p: Vec<&str> = l.splitn(3, ':').collect();
             let cps = p[2].split('^').filter(|x| !x.is_empty()).map(|c| { let (id, es) = c.split_once('=').unwrap(); Checkpoint { id: id.parse().unwrap(), entries: es.split('+').filter(|x| !x.is_empty()).map(|e| { let (f, t) = e.rsplit_once('@').unwrap(); WorkingLogEntry { file: f.to_string(), tag: t.parse().unwrap() } }).collect() } }).collect();
-            logs.insert(p[0].to_string(), Log { cps, initial: unopt(p[1]) });
+            let (initial, ifiles) = match p[1].split_once('!') { Some((d, fs)) => (Some(d.to_string()), fs.split('+').filter(|x| !x.is_empty()).map(|x| x.to_string()).collect()), None => (unopt(p[1]), vec![]) };
+            logs.insert(p[0].to_string(), Log { cps, initial, ifiles });
         }
         let mut touched = BTreeMap::new();
         for t in g("touch").split('~').filter(|x| !x.is_empty()) { let (k, v) = t.split_once(':').unwrap(); touched.insert(k.to_string(), v.split('+').filter(|x| !x.is_empty()).map(|x| x.to_string()).collect()); }
@@ -224,7 +229,7 @@ fn check(c: &mut Ctx, case: &Case) {
     let un_done = range(&target, &old);
     let ai_files: Vec<String> = case.changed.iter().filter(|f| un_done.iter().any(|k| case.touched.get(k).map_or(false, |v| v.contains(f)))).cloned().collect();
     let text = |fs: &[String]| { let mut v: Vec<String> = fs.iter().map(|f| format!("{}={}", f, match f.as_str() { "a.txt" => "A\n", "dir/x" => "X\n", _ => "" })).collect(); v.sort(); v.join(",") };
-    let initial_for = |fs: &[String]| { let mut s = fs.to_vec(); s.sort();
+    let initial_for = |fs: &[String]| { let mut s = fs.to_vec(); s.sort(); let fs = &s[..];
         format!("initial(of=merge(first=notes+pending(head={o};files={f};human=None;stop=Some(\"{t}\"));second=committed(head={t};files={f};stop=Some(\"{t}\"));text={x});parent={t};commit={t};files={s})", o = old, t = target, f = fs.join(","), x = text(fs), s = s.join(",")) };
     if paths.is_empty() {
         let f = "handle_reset_preserve_working_dir";
@@ -236,6 +241,11 @@ fn check(c: &mut Ctx, case: &Case) {
             return;
         }
         let f = "reconstruct_working_log_after_reset";
+        // carried: what the notes of the un-done commits attribute, AND every file with pending attribution in the old head's log
+        // (that log is deleted; C02 - this was finding 1, now required)
+        let pending: BTreeSet<String> = case.logs.get(&old).map(|l| l.cps.iter().flat_map(|c| c.entries.iter().map(|e| e.file.clone())).chain(l.ifiles.iter().cloned()).collect()).unwrap_or_default();
+        let notes_files = ai_files.clone();
+        let ai_files: Vec<String> = { let mut v = ai_files.clone(); for p in &pending { if !v.contains(p) { v.push(p.clone()); } } v };
         let want = initial_for(&ai_files);
         let mut placed = false; let mut cleared = false;
         for e in &log_effects { match e {
@@ -246,18 +256,20 @@ fn check(c: &mut Ctx, case: &Case) {
         } }
         untouched(c, f, "carry-no-other-effect", &[&old, &target]);
         if !failed_inside {
-            let want_log = if ai_files.is_empty() { norm(case.logs.get(&target)) } else { Log { cps: vec![], initial: if case.init_empty { None } else { Some(want.clone()) } } };
+            let want_log = if ai_files.is_empty() { norm(case.logs.get(&target)) } else { Log { cps: vec![], initial: if case.init_empty { None } else { Some(want.clone()) }, ifiles: vec![] } };
             if norm(after.get(&target)) != want_log { c.fail(f, "carry-target-log", input.clone(), format!("{:?}", after.get(&target)), format!("{:?}", want_log)); }
             if after.contains_key(&old) { c.fail(f, "carry-old-log-removed", input.clone(), format!("{:?}", after.get(&old)), "removed".into()); }
-            // C02: every file with pending attribution in the old head's log must be among the carried ones (finding 1)
-            let left: Vec<String> = case.logs.get(&old).map(|l| l.cps.iter().flat_map(|c| c.entries.iter().map(|e| e.file.clone())).filter(|x| !ai_files.contains(x)).collect()).unwrap_or_default();
-            let lost_initial = case.logs.get(&old).map_or(false, |l| l.initial.is_some()) && ai_files.is_empty();
-            if c.strict && (!left.is_empty() || lost_initial) { c.fail(f, "carry-pending-outside-carried-files", input.clone(), format!("pending attribution of {:?} (INITIAL lost: {}) deleted with the old head's log; carried files {:?}", left, lost_initial, ai_files), "every file with pending attribution is carried".into()); }
+            // C02: the old head's log is gone, so every file with pending attribution in it must be among the files of what was written
+            let written: Vec<String> = log_effects.iter().filter_map(|e| if let Eff::WriteInitial(_, d) = e { d.rsplit_once(";files=").map(|(_, l)| l.trim_end_matches(')').split(',').map(|x| x.to_string()).collect::<Vec<_>>()) } else { None }).last().unwrap_or_default();
+            let left: Vec<&String> = pending.iter().filter(|p| !written.contains(p)).collect();
+            if !case.init_empty && !left.is_empty() { c.fail(f, "carry-pending-outside-carried-files", input.clone(), format!("pending attribution of {:?} deleted with the old head's log; files of the notes {:?}, written for {:?}", left, notes_files, written), "every file with pending attribution is carried".into()); }
         }
         return;
     }
     // ---- reset <tree-ish> -- <paths>: HEAD does not move, the working tree is not touched
     let f = "handle_reset_pathspec_preserve_working_dir";
+    // un-staging (the target is HEAD itself): only the index changes, no working log is touched (was finding 2, now required)
+    if target == old { if !log_effects.is_empty() { c.fail(f, "paths-unstage-noop", input.clone(), format!("{:?}", log_effects), "no effect on any working log".into()); } return; }
     if !back { if !log_effects.is_empty() { c.fail(f, "paths-forward-noop", input.clone(), format!("{:?}", log_effects), "no effect".into()); } return; }
     untouched(c, f, "paths-other-logs-untouched", &[&old, &new, &target]);
     for e in &log_effects { if let Eff::WriteInitial(s, d) = e { let cf: Vec<String> = ai_files.iter().filter(|x| named(&paths, x)).cloned().collect(); if *s != target || *d != initial_for(&cf) { c.fail("reconstruct_working_log_after_reset", "carry-what-is-written", input.clone(), format!("{:?}", e), format!("WriteInitial({}, {})", target, initial_for(&cf))); } } }
@@ -295,7 +307,8 @@ fn gen_case(r: &mut Rng) -> Case {
     for k in commits { if r.below(2) == 0 {
         let n = r.below(4); let mut cps = vec![];
         for _ in 0..n { let es: Vec<WorkingLogEntry> = subset(r).into_iter().map(|f| WorkingLogEntry { file: f, tag: r.below(100) as u32 }).collect(); if !es.is_empty() { cps.push(Checkpoint { entries: es, id }); id += 1; } }
-        logs.insert(k.to_string(), Log { cps, initial: if r.below(3) == 0 { Some(format!("INIT-{}", k)) } else { None } });
+        let ini = r.below(3) == 0;
+        logs.insert(k.to_string(), Log { cps, initial: if ini { Some(format!("INIT-{}", k)) } else { None }, ifiles: if ini { subset(r) } else { vec![] } });
     } }
     Case { ok: r.below(8) != 0, flags, paths, old, new, pre, res, changed: subset(r), touched, logs, init_empty: r.below(5) == 0, fail_at: if r.below(4) == 0 { Some(1 + r.below(12) as usize) } else { None } }
 }
@@ -316,7 +329,7 @@ fn main() {
         let seed: u64 = a.get(3).and_then(|s| s.parse().ok()).unwrap_or(0);
         // exhaustive-small: outcome x mode x pathspecs x old x target on one fixed repository state
         let mut touched = BTreeMap::new(); touched.insert("c2".to_string(), vec!["a.txt".to_string(), "dir/x".to_string()]); touched.insert("c3".to_string(), vec!["dir/y".to_string()]);
-        let mk = |k: &str, fs: &[&str], id: u32| (k.to_string(), Log { cps: vec![Checkpoint { id, entries: fs.iter().enumerate().map(|(i, f)| WorkingLogEntry { file: f.to_string(), tag: i as u32 }).collect() }], initial: None });
+        let mk = |k: &str, fs: &[&str], id: u32| (k.to_string(), Log { cps: vec![Checkpoint { id, entries: fs.iter().enumerate().map(|(i, f)| WorkingLogEntry { file: f.to_string(), tag: i as u32 }).collect() }], initial: None, ifiles: vec![] });
         for ok in [true, false] { for flags in [vec![], vec!["--hard"], vec!["--soft"], vec!["--mixed"], vec!["--keep"], vec!["--merge"]] { for paths in [vec![], vec!["a.txt"], vec!["dir"], vec!["dir/"]] {
             for old in ["c3", "c2", "c1"] { for tgt in ["c0", "c1", "c2", "c3", "s1"] { for withlog in [0, 1, 2] { for pre in [true, false] {
                 let mut logs = BTreeMap::new();
